@@ -1,0 +1,9 @@
+//go:build verif
+
+// Verification hook (build tag verif, add-only): exposes the unexported S3
+// object-key generator to the correspondence harness of property C33.
+package vgis3
+
+// VerifGenerateUUID calls the real generateUUID (the random part of every
+// S3 object key written by Upload).
+func VerifGenerateUUID() string { return generateUUID() }
